@@ -4,7 +4,6 @@ import (
 	"fmt"
 	"go/token"
 	"go/types"
-	"math/big"
 	"os"
 	"sort"
 	"strings"
@@ -290,7 +289,33 @@ func (c *evalCtx) evalAddr(x interface{}) VPtr { return c.evalAddrExpr(x) }
 // ---------------------------------------------------------------------------------
 // top-level: verify one function against its contract in one mode
 
-func (e *Engine) verifyFunction(fn *ssa.Function, ct *Contract, mode Mode) (err error) {
+// verifyFunction verifies fn against its contract; `cases p lo hi` clauses split the run
+// into one run per value of an integer parameter (exhaustive over the stated range, which
+// must be implied by... and is checked against the precondition by an extra obligation).
+func (e *Engine) verifyFunction(fn *ssa.Function, ct *Contract, mode Mode) error {
+	if len(ct.Cases) == 0 {
+		return e.verifyFunctionCase(fn, ct, mode, nil)
+	}
+	cs := ct.Cases[0]
+	// exhaustiveness: requires => lo <= p < hi
+	if err := e.verifyFunctionCase(fn, ct, mode, &caseSel{cs: cs, exhaustive: true}); err != nil {
+		return err
+	}
+	for v := cs.Lo; v < cs.Hi; v++ {
+		if err := e.verifyFunctionCase(fn, ct, mode, &caseSel{cs: cs, val: v}); err != nil {
+			return err
+		}
+	}
+	return nil
+}
+
+type caseSel struct {
+	cs         caseSplit
+	val        int
+	exhaustive bool
+}
+
+func (e *Engine) verifyFunctionCase(fn *ssa.Function, ct *Contract, mode Mode, sel *caseSel) (err error) {
 	e.mode = mode
 	e.curFn = fn
 	e.curC = ct
@@ -311,6 +336,20 @@ func (e *Engine) verifyFunction(fn *ssa.Function, ct *Contract, mode Mode) (err 
 	}
 	for _, fc := range a.facts {
 		s.assume(fc)
+	}
+	if sel != nil {
+		idx := -1
+		for i, p := range fn.Params {
+			if p.Name() == sel.cs.Param {
+				idx = i
+			}
+		}
+		if idx < 0 {
+			return fmt.Errorf("%s: cases: no parameter %s", funcKey(fn), sel.cs.Param)
+		}
+		if !sel.exhaustive {
+			args[idx] = VInt{Int64C(int64(sel.val))}
+		}
 	}
 	fr := e.newFrame(fn, args, nil)
 	fr.contract = ct
@@ -360,9 +399,17 @@ func (e *Engine) verifyFunction(fn *ssa.Function, ct *Contract, mode Mode) (err 
 		}
 		c.env = copyEnv(fr.params)
 	}
+	if sel != nil && sel.exhaustive {
+		p := asInt(fr.params[sel.cs.Param])
+		e.emit(s, "cases-exhaustive", sel.cs.Param, And(Le(Int64C(int64(sel.cs.Lo)), p), Lt(p, Int64C(int64(sel.cs.Hi)))), fn.Pos(), fmt.Sprintf("precondition implies %d <= %s < %d", sel.cs.Lo, sel.cs.Param, sel.cs.Hi))
+		return nil
+	}
 	// vacuity guard: the precondition must be satisfiable
-	cov := &Oblig{Name: fmt.Sprintf("%s/%s/cover@pre", funcKey(fn), mode), Func: funcKey(fn), Mode: mode, Kind: "cover", Hyps: append([]*Term(nil), s.pc...), Goal: nil, Expect: "sat", Props: ct.Props, Src: "precondition satisfiable"}
-	e.obligs = append(e.obligs, cov)
+	e.noCover = sel != nil && sel.val != sel.cs.Lo
+	if !e.noCover {
+		cov := &Oblig{Name: fmt.Sprintf("%s/%s/cover@pre", funcKey(fn), mode), Func: funcKey(fn), Mode: mode, Kind: "cover", Hyps: append([]*Term(nil), s.pc...), Goal: nil, Expect: "sat", Props: ct.Props, Src: "precondition satisfiable"}
+		e.obligs = append(e.obligs, cov)
+	}
 	e.run(s, nil)
 	return nil
 }
@@ -378,6 +425,14 @@ func (e *Engine) atReturn(s *State, f *Frame, res []Value, pos token.Pos) {
 		env[names[i]] = v
 	}
 	c := &evalCtx{e: e, s: s, env: env, oldHeap: f.entryHeap, oldEnv: f.params, pkg: f.fn.Pkg.Pkg}
+	if pos == token.NoPos {
+		pos = f.fn.Pos()
+	}
+	for k, cl := range ct.Asserts {
+		if e.clauseApplies(cl) {
+			e.emit(s, "lemma", fmt.Sprintf("%d", k), c.evalBool(cl.Expr), pos, cl.Src)
+		}
+	}
 	for k, cl := range ct.Ensures {
 		if !e.clauseApplies(cl) || cl.Tag == "deferred" {
 			continue
@@ -390,6 +445,9 @@ func (e *Engine) atReturn(s *State, f *Frame, res []Value, pos token.Pos) {
 		e.emit(s, "post", site, t, pos, cl.Src)
 	}
 	// reachability of the return (vacuity guard)
+	if e.noCover {
+		return
+	}
 	cov := &Oblig{Name: fmt.Sprintf("%s/%s/cover@return", funcKey(e.curFn), e.mode), Func: funcKey(e.curFn), Mode: e.mode, Kind: "cover", Hyps: append([]*Term(nil), s.pc...), Expect: "sat", Props: ct.Props, Src: "normal return reachable"}
 	e.obligs = append(e.obligs, cov)
 }
@@ -401,72 +459,102 @@ func (e *Engine) globalObject(g *ssa.Global) *Object {
 	if o, ok := e.globals[g]; ok {
 		return o
 	}
+	if g.Pkg != nil && inModulePkg(g.Pkg) {
+		e.ensurePkgInit(g.Pkg)
+		if o, ok := e.globals[g]; ok {
+			return o
+		}
+	}
 	o := newObject("global."+g.Name(), g.Type().(*types.Pointer).Elem())
 	e.globals[g] = o
-	e.globalVal[o] = e.initGlobal(g, o)
+	a := &absCtx{e: e, s: &State{heap: e.globalVal}}
+	e.globalVal[o] = a.abstractValue(o.typ, uniqueName("global."+g.Name()), nil)
+	e.note("global " + g.String() + " treated as an unconstrained value")
 	return o
 }
 
-// initGlobal evaluates the initialiser of selected package-level variables.
-func (e *Engine) initGlobal(g *ssa.Global, o *Object) interface{} {
-	path := ""
-	if g.Pkg != nil {
-		path = g.Pkg.Pkg.Path()
-	}
-	full := path + "." + g.Name()
-	elem := g.Type().(*types.Pointer).Elem()
-	switch full {
-	case modulePrefix + "/goldilocks.MODULUS":
-		bo := newObject("MODULUS.big", nil)
-		e.globalVal[bo] = VInt{IntC(PConst)}
-		e.frozen[full] = true
-		return VPtr{Obj: bo}
-	case modulePrefix + "/goldilocks.RANGE_CHECK_NB_BITS":
-		e.frozen[full] = true
-		return VInt{Int64C(e.constIntInit(g, 144))}
-	case modulePrefix + "/goldilocks.EXPECTED_OPTIMAL_BASEWIDTH":
-		e.frozen[full] = true
-		return VInt{Int64C(e.constIntInit(g, 16))}
-	case modulePrefix + "/goldilocks.TWO_ADICITY":
-		e.frozen[full] = true
-		return VInt{Int64C(e.constIntInit(g, 32))}
-	case modulePrefix + "/goldilocks.mutex":
-		return VOpaque{Kind: "mutex"}
-	}
-	if _, isMap := elem.Underlying().(*types.Map); isMap {
-		mo := newObject(g.Name()+".map", elem)
-		e.globalVal[mo] = &MapVal{Opaque: true}
-		return VMap{Obj: mo}
-	}
-	if v, ok := e.evalGlobalInit(g); ok {
-		e.frozen[full] = true
-		return v
-	}
-	// unknown global: symbolic value of its type
-	a := &absCtx{e: e, s: &State{heap: e.globalVal}}
-	v := a.abstractValue(elem, uniqueName("global."+g.Name()), nil)
-	e.note("global " + full + " treated as an unconstrained value")
-	return v
+func inModulePkg(p *ssa.Package) bool {
+	return p != nil && strings.HasPrefix(p.Pkg.Path(), modulePrefix)
 }
 
-// constIntInit finds `*g = <const>` in the package initialiser.
-func (e *Engine) constIntInit(g *ssa.Global, dflt int64) int64 {
-	init := g.Pkg.Func("init")
-	if init == nil {
-		return dflt
+// ensurePkgInit executes the package initialiser of a module package once, concretely, to
+// obtain the values of its package-level variables.  Variables that are written anywhere
+// outside the initialiser are not trusted to keep that value: they become unconstrained.
+func (e *Engine) ensurePkgInit(pkg *ssa.Package) {
+	if e.pkgInit[pkg] {
+		return
 	}
-	for _, b := range init.Blocks {
-		for _, in := range b.Instrs {
-			if st, ok := in.(*ssa.Store); ok && st.Addr == g {
-				if c, ok := st.Val.(*ssa.Const); ok && c.Value != nil {
-					if v, ok := new(big.Int).SetString(c.Value.ExactString(), 10); ok {
-						return v.Int64()
-					}
-				}
-			}
+	e.pkgInit[pkg] = true
+	var gs []*ssa.Global
+	for _, m := range pkg.Members {
+		if g, ok := m.(*ssa.Global); ok {
+			gs = append(gs, g)
 		}
 	}
-	return dflt
+	sort.Slice(gs, func(i, j int) bool { return gs[i].Name() < gs[j].Name() })
+	for _, g := range gs {
+		elem := g.Type().(*types.Pointer).Elem()
+		o := newObject("global."+g.Name(), elem)
+		e.globals[g] = o
+		e.globalVal[o] = e.zeroValue(elem)
+	}
+	init := pkg.Func("init")
+	if init != nil && len(init.Blocks) > 0 {
+		savedMode, savedFn, savedC, savedObl := e.mode, e.curFn, e.curC, e.obligs
+		e.mode, e.curFn, e.curC = PLAIN, init, nil
+		e.inInit = true
+		func() {
+			defer func() {
+				if r := recover(); r != nil {
+					if ee, ok := r.(execError); ok {
+						e.note("package initialiser of " + pkg.Pkg.Path() + " could not be evaluated (" + ee.msg + "): all its package-level variables are unconstrained")
+						for _, g := range gs {
+							o := e.globals[g]
+							if _, isMap := o.typ.Underlying().(*types.Map); isMap {
+								mo := newObject(g.Name()+".map", o.typ)
+								e.globalVal[mo] = &MapVal{Opaque: true}
+								e.globalVal[o] = VMap{Obj: mo}
+								continue
+							}
+							func() {
+								defer func() { recover() }()
+								a := &absCtx{e: e, s: &State{heap: e.globalVal}}
+								e.globalVal[o] = a.abstractValue(o.typ, uniqueName("global."+g.Name()), nil)
+							}()
+						}
+						return
+					}
+					panic(r)
+				}
+			}()
+			s := &State{heap: e.globalVal}
+			fr := e.newFrame(init, nil, nil)
+			s.stack = []*Frame{fr}
+			e.run(s, nil)
+		}()
+		e.inInit = false
+		e.mode, e.curFn, e.curC, e.obligs = savedMode, savedFn, savedC, savedObl
+	}
+	// globals written outside init are not frozen
+	for _, g := range gs {
+		full := pkg.Pkg.Name() + "." + g.Name()
+		if writers := e.globalWriters[full]; len(writers) > 0 {
+			o := e.globals[g]
+			elem := o.typ
+			if _, isMap := elem.Underlying().(*types.Map); isMap {
+				mo := newObject(g.Name()+".map", elem)
+				e.globalVal[mo] = &MapVal{Opaque: true}
+				e.globalVal[o] = VMap{Obj: mo}
+				continue
+			}
+			if _, isMutex := e.globalVal[o].(VOpaque); isMutex {
+				continue
+			}
+			a := &absCtx{e: e, s: &State{heap: e.globalVal}}
+			e.globalVal[o] = a.abstractValue(elem, uniqueName("global."+g.Name()), nil)
+			e.note("global " + full + " is written outside its initialiser (" + strings.Join(writers, ", ") + "): treated as an unconstrained value")
+		}
+	}
 }
 
 func (e *Engine) lookupGlobalByName(s *State, pkg *types.Package, name string) (Value, bool) {
